@@ -169,6 +169,32 @@ def reset_is_unconditional(ctx):
               "ext.reset_flags() and a cleared (or fresh) holder", str(union), fn_where(idx, fr), nontrivial=False)
 
 
+def reset_leaves_configuration_alone(ctx):
+    """reset() undoes what a transform did; it does not touch what the user configured.  Every attribute reset() (or a reset method it
+    calls on the transformer) re-binds is an attribute some method of the transform phase writes: an attribute that only the constructor
+    writes and the callbacks read is configuration (the output layout, the architecture, the parameter list, the temporaries' prefix), and
+    re-binding it in reset() makes the second compilation differ from the first."""
+    idx = get_index(ctx.env)
+    fr = idx.func("RZILTransformer.reset")
+    c = fr.cls
+    writers = {}
+    readers = {}
+    for fi in idx.funcs.values():
+        if fi.cls != c or fi.name in ("__init__", "reset"):
+            continue
+        reads, rebinds, muts = idx.attr_effects(fi)
+        for recv, attr in rebinds | muts:
+            if recv == "self":
+                writers.setdefault(attr, set()).add(fi.qual)
+        for recv, attr in reads:
+            if recv == "self":
+                readers.setdefault(attr, set()).add(fi.qual)
+    _, rebinds, _ = idx.attr_effects(fr)
+    own = sorted(a for r, a in rebinds if r == "self")
+    bad = [f"self.{a} (written by the constructor only, read by {sorted(readers.get(a, []))[:2]})" for a in own if a not in writers and a in readers]
+    ctx.check("reset() re-binds only attributes the transform phase writes (never configuration)", not bad, "state of the last transform only", "; ".join(bad) or f"re-binds {own or 'nothing'}", fn_where(idx, fr))
+
+
 def nodes_own_their_containers(ctx):
     """a node built for one behaviour shares no mutable container with the long-lived object it refers to (a call node with the routine,
     a macro invocation with the macro): what one behaviour adds to or removes from such a container would be seen by every later one"""
@@ -216,6 +242,7 @@ def r14_6(ctx):
     nodes_own_their_containers(ctx)
     idx = get_index(ctx.env)
     reset_is_unconditional(ctx)
+    reset_leaves_configuration_alone(ctx)
     # aliasing: an attribute that some method other than the constructor re-binds must not be cached in another object
     rebound = {}
     for fi in idx.funcs.values():
@@ -456,6 +483,7 @@ def r14_3(ctx):
                 memo.append(f"{fi.qual}:{fi.node.lineno} @{t}")
     lazy_state_checks(ctx)
     registry_commit_point(ctx)
+    registry_entries_ignore_instance_settings(ctx)
     no_function_level_caches(ctx)
     ctx.check("no mutable default argument (one object shared by all calls)", not mut_defaults, "none", "; ".join(mut_defaults[:3]) or "none", "rzilcompiler/")
     ctx.check("no memoising decorator (results of earlier calls handed out again)", not memo, "none", "; ".join(memo[:3]) or "none", "rzilcompiler/")
@@ -543,6 +571,49 @@ def registry_commit_point(ctx):
             ctx.check(f"{fi.qual}: {c}.{a}[...] is stored after the last step that can fail", not late, "store, then only logging / handing the registry on",
                       "; ".join(sorted(set(late))[:3]) or "ok", fn_where(idx, fi))
     ctx.check("registry writers found", n >= 2, ">= 2 functions store into a shared registry", str(n), "rzilcompiler/", nontrivial=False)
+
+
+def registry_entries_ignore_instance_settings(ctx):
+    """what is put into a registry shared by all instances (a class-level container) is a function of the entry's own arguments and the
+    registered resources: it never depends on a setting of the one instance that happens to fill the registry first (the settings are the
+    attributes __init__ copies from its own parameters).  Parameters whose type has a single value are no settings."""
+    idx = get_index(ctx.env)
+    n = 0
+    for (c, a) in REGISTRY_READERS:
+        ci = idx.classes.get(c)
+        if ci is None or a not in ci.class_attrs:
+            continue
+        init = idx.resolve_method(c, "__init__")
+        ctx.need(init is not None, f"{c}.__init__ not found")
+        params = {x.arg: x.annotation for x in init.node.args.args[1:] + init.node.args.kwonlyargs}
+        settings = {}
+        for nd in ast.walk(init.node):
+            tv = [(t, nd.value) for t in nd.targets] if isinstance(nd, ast.Assign) else [(nd.target, nd.value)] if isinstance(nd, ast.AnnAssign) and nd.value is not None else []
+            for t, v in tv:
+                if isinstance(t, ast.Attribute) and isinstance(t.value, ast.Name) and t.value.id == "self" and isinstance(v, ast.Name) and v.id in params:
+                    ann = params[v.id]
+                    tname = U(ann).split(".")[-1] if ann is not None else None
+                    if tname and idx.is_enum(tname) and len(idx.enum_table(tname)) <= 1:
+                        continue
+                    settings[t.attr] = v.id
+        writers = []
+        for fi in idx.funcs.values():
+            if fi.cls != c:
+                continue
+            if any(isinstance(nd, ast.Assign) and any(isinstance(t, ast.Subscript) and isinstance(t.value, ast.Attribute) and t.value.attr == a for t in nd.targets) for nd in ast.walk(fi.node)):
+                writers.append(fi)
+        for w in writers:
+            reach = {q: f for q, f in idx.reachable([w]).items() if f.cls == c}
+            reach[w.qual] = w
+            bad = []
+            for q, f in sorted(reach.items()):
+                for nd in ast.walk(f.node):
+                    if isinstance(nd, ast.Attribute) and isinstance(nd.ctx, ast.Load) and isinstance(nd.value, ast.Name) and nd.value.id == "self" and nd.attr in settings:
+                        bad.append(f"{q}:{nd.lineno} reads self.{nd.attr} (constructor parameter {settings[nd.attr]})")
+            n += 1
+            ctx.check(f"{w.qual}: what goes into the shared {c}.{a} does not depend on a setting of this instance", not bad, f"no read of {sorted('self.' + x for x in settings)} on the way",
+                      "; ".join(bad[:3]) or f"{len(reach)} methods on the way, none reads a setting", fn_where(idx, w))
+    ctx.check("writers of class-level registries found", n >= 1, ">= 1", str(n), "rzilcompiler/", nontrivial=False)
 
 
 @rule("R14.4", "C14", "no in-place mutation of possibly shared/persistent type objects", min_instances=3)
